@@ -52,6 +52,37 @@ type VerifC18BookEntry struct {
 	IP     net.IP
 	Port   int
 	Recent bool // connection attempted just now (addrManager.Attempt)
+	// Sources > 1: the address is learnt from that many sources in different /16 groups (the new
+	// bucket is chosen from the source group), repeated until it sits in that many new buckets
+	Sources int
+}
+
+// learn hands the address to AddAddresses once per source group, repeating (the chance of a further
+// reference is 1/(2*refs) per call) until the address holds b.Sources new-bucket references.
+func (w *VerifC18Wired) learn(b VerifC18BookEntry) {
+	na := wire.NewNetAddressIPPort(b.IP, uint16(b.Port), wire.SFspv)
+	key := addrmgr.NetAddressKey(na)
+	n := b.Sources
+	if n < 1 {
+		n = 1
+	}
+	for j := 0; j < n; j++ {
+		for try := 0; try < 400; try++ {
+			src := wire.NewNetAddressIPPort(net.IPv4(45, byte(200+j), byte(1+try%200), 1), 8333, wire.SFspv)
+			w.s.addrManager.AddAddresses([]*wire.NetAddress{na}, src)
+			if r := w.s.addrManager.VerifC18Refs(key); r >= j+1 || r < 0 {
+				break
+			}
+		}
+	}
+	if b.Recent {
+		w.s.addrManager.Attempt(na)
+	}
+}
+
+// Refs returns the number of new-bucket references the address manager holds for the address.
+func (w *VerifC18Wired) Refs(b VerifC18BookEntry) int {
+	return w.s.addrManager.VerifC18Refs(addrmgr.NetAddressKey(wire.NewNetAddressIPPort(b.IP, uint16(b.Port), wire.SFspv)))
 }
 
 // VerifC18NewWired builds the server value the way newServer does (minus listeners and DNS seeds).
@@ -98,14 +129,6 @@ func VerifC18NewWired(c VerifC18WiredCfg) (*VerifC18Wired, error) {
 	if c.RealAddressSource {
 		lookup := func(string) ([]net.IP, error) { return nil, errors.New("no dns") }
 		getAddr = p2putil.NewAddressFunc(s.addrManager.GetAddress, s.OutboundGroupCount, lookup)
-		src := wire.NewNetAddressIPPort(net.IPv4(45, 200, 1, 1), 8333, wire.SFspv)
-		for _, b := range c.Book {
-			na := wire.NewNetAddressIPPort(b.IP, uint16(b.Port), wire.SFspv)
-			s.addrManager.AddAddresses([]*wire.NetAddress{na}, src)
-			if b.Recent {
-				s.addrManager.Attempt(na)
-			}
-		}
 	}
 	cm, err := connmgr.New(&connmgr.Config{
 		TargetOutbound: uint32(c.Target),
@@ -120,7 +143,13 @@ func VerifC18NewWired(c VerifC18WiredCfg) (*VerifC18Wired, error) {
 		return nil, err
 	}
 	s.connManager = cm
-	return &VerifC18Wired{s: s, params: &p}, nil
+	w := &VerifC18Wired{s: s, params: &p}
+	if c.RealAddressSource {
+		for _, b := range c.Book {
+			w.learn(b)
+		}
+	}
+	return w, nil
 }
 
 // Start runs the real server.Start (peerHandler, which starts the connection manager).
@@ -171,15 +200,7 @@ func (w *VerifC18Wired) RemoteHandshake(ip net.IP, port int, nonce uint64, withV
 // Returns false when AddAddresses did not return within the bound (the manager's mutex is held for ever).
 func (w *VerifC18Wired) AddAddress(b VerifC18BookEntry, bound time.Duration) bool {
 	done := make(chan struct{})
-	go func() {
-		src := wire.NewNetAddressIPPort(net.IPv4(45, 200, 1, 1), 8333, wire.SFspv)
-		na := wire.NewNetAddressIPPort(b.IP, uint16(b.Port), wire.SFspv)
-		w.s.addrManager.AddAddresses([]*wire.NetAddress{na}, src)
-		if b.Recent {
-			w.s.addrManager.Attempt(na)
-		}
-		close(done)
-	}()
+	go func() { w.learn(b); close(done) }()
 	select {
 	case <-done:
 		return true
